@@ -52,6 +52,7 @@ def check(run):
     c01.report(run, "C09", cases, meta, rejects, "c09-large")
     layouts(run, rng, 4 if quick else 40, 8 if quick else 12)
     named_field_parameters(run, rng)
+    refreshed_searchers(run, rng)
 
 
 def all_weightings():
@@ -131,6 +132,38 @@ def named_field_parameters(run, rng):
     cases = [{"idx": {"docs": []}, "qs": [{"q": {"op": "null"}, "obs": flags}]}]
     rejects = qobs.judge(run, cases, name="QueryCheck-fieldparams")
     c01.report(run, "C09", cases, [{"plan": ["per-field parameters"], "nseg": 1, "deleted": 0}], rejects, "c09-fieldparams")
+
+
+def refreshed_searchers(run, rng):
+    """The weighting model belongs to the searcher: after a commit, searcher.refresh() scores with the model the
+    searcher was opened with - exactly as a new searcher opened with that model does."""
+    from whoosh import query
+    flags = []
+    for wname, wobj in all_weightings():
+        adocs = {"k%d" % i: world.rand_doc(rng) for i in range(6)}
+        w = world.World(adocs, [("commit", sorted(adocs)[:4], {"merge": False})], storage="ram")
+        try:
+            s = w.ix.searcher(weighting=wobj)
+            w.apply(("commit", sorted(adocs)[4:], {"merge": False}))
+            s2 = s.refresh()
+            ok = True
+            with w.ix.searcher(weighting=wobj) as ref:
+                for t in ([1], [2], [1, 2], [2, 1]):
+                    q = query.Or([query.Term("body", world.term_text(t)), query.Term("title", world.term_text(t), boost=2.0)])
+                    a = [(h.docnum, repr(h.score)) for h in s2.search(q, limit=None)]
+                    b = [(h.docnum, repr(h.score)) for h in ref.search(q, limit=None)]
+                    if a != b:
+                        ok = False
+            flags.append({"kind": "flag", "path": "refresh() keeps the searcher's weighting (%s)" % wname, "value": ok})
+            s2.close()
+        except Exception as ex:
+            flags.append({"kind": "error", "path": "refresh() with %s" % wname, "err": type(ex).__name__, "msg": str(ex)[:120]})
+        finally:
+            w.close()
+    run.count(len(flags))
+    cases = [{"idx": {"docs": []}, "qs": [{"q": {"op": "null"}, "obs": flags}]}]
+    rejects = qobs.judge(run, cases, name="QueryCheck-refresh")
+    c01.report(run, "C09", cases, [{"plan": ["refresh keeps weighting"], "nseg": 2, "deleted": 0}], rejects, "c09-refresh")
 
 
 def layouts(run, rng, nworlds, nqueries):
